@@ -44,14 +44,19 @@ class Creators:
     """
     if self._version is None:
       # called directly, with the version still undecided: if a queued line
-      # is refused, the Gfa is left as it was
+      # is refused, the Gfa is left as it was; the refused line, which has
+      # been reported, does not remain in the queue
       saved = self.__save_state_unknown_version()
       self._version = self._version_guess
+      n_processed = 0
       try:
         while self._line_queue:
-          self.add_line(self._line_queue.pop(0))
+          gfa_line = self._line_queue.pop(0)
+          self.add_line(gfa_line)
+          n_processed += 1
       except:
         self.__restore_state_unknown_version(saved)
+        del self._line_queue[n_processed]
         raise
       return
     while self._line_queue:
